@@ -9,7 +9,7 @@
    hypotheses are satisfiable ([aead_hyps_satisfiable]). *)
 From Coq Require Import List NArith Arith Bool Lia.
 From AHK Require Import Lib.Res Lib.ByteStr Model.Frame
-  Proofs.FrameBase Proofs.FrameFeed Proofs.FrameSend Proofs.FrameSound.
+  Proofs.FrameBase Proofs.FrameFeed Proofs.FrameSend Proofs.FrameSound Proofs.FrameSess.
 Import ListNotations.
 
 Lemma F1024 : 0 < CHUNK. Proof. unfold CHUNK; lia. Qed.
@@ -159,6 +159,32 @@ Theorem send_feed_mirror : forall A key, aead_ok A 16 -> forall ctr payload segs
     = (Live [] (snd r), map sf_chunk (fst (ip_send_sym ctr payload))).
 Proof. exact (fun A key H => send_feed CHUNK TAGLEN A key H F1024w F1024). Qed.
 
+(* ------------------------------------------------------------------ whole session *)
+(* one live protocol object, any interleaving of requests, reads and flow-control
+   callbacks (no cancellation of an in-flight request): what is decoded is exactly what
+   the reads alone would give - sending (or pause/resume) between two reads, e.g. in the
+   middle of a partly received message, changes nothing *)
+Theorem session_inbound_independent : forall opn ops s,
+    forallb no_cancel ops = true ->
+    s_rx (fst (ip_sess_run opn s ops)) = fst (ip_feed_all opn (s_rx s) (recvs ops)) /\
+    delivered (snd (ip_sess_run opn s ops)) = snd (ip_feed_all opn (s_rx s) (recvs ops)).
+Proof. exact (fun opn => sess_inbound CHUNK TAGLEN opn). Qed.
+
+(* as long as no request is refused or raises, the frames written are those of the
+   requests sent one after the other with the counter threaded through - whatever was
+   received, paused or resumed in between, and however many requests are in flight *)
+Theorem session_outbound_sequential : forall opn ops s,
+    forallb accepted_ev (snd (ip_sess_run opn s ops)) = true ->
+    wrote (snd (ip_sess_run opn s ops)) = fst (ip_sends_seq (s_tx s) (sent ops)) /\
+    s_tx (fst (ip_sess_run opn s ops)) = snd (ip_sends_seq (s_tx s) (sent ops)).
+Proof. exact (fun opn => sess_outbound CHUNK TAGLEN opn). Qed.
+
+(* once the session is dead nothing is delivered and nothing is written *)
+Theorem session_dead_quiet : forall opn ops tx,
+    delivered (snd (ip_sess_run opn (mkSess Dead tx) ops)) = [] /\
+    wrote (snd (ip_sess_run opn (mkSess Dead tx) ops)) = [].
+Proof. exact (fun opn => sess_dead_quiet CHUNK TAGLEN opn). Qed.
+
 (* nonce layout: 12 bytes, distinct for distinct counters below 2^64 *)
 Theorem nonce_layout : forall a b,
     length (nonce_of a) = 12 /\
@@ -198,6 +224,19 @@ Example c05_auth_fail_nonvacuous :
   ip_feed_all (open toy_aead k) (Live [] 7%N) [firstn 30 st; skipn 30 st] = (Dead, [[10%N]]).
 Proof. vm_compute. split; reflexivity. Qed.
 
+(* an event in two frames, a request sent between the two reads, a pause/resume around
+   a second request: both plaintext frames are delivered, two frames are written with
+   counters 0 and 1 *)
+Example c05_session_nonvacuous :
+  let k := [1%N] in
+  let f1 := seal_frame toy_aead k 0%N [69; 86]%N in
+  let f2 := seal_frame toy_aead k 1%N [69; 78; 84]%N in
+  let ops := [ORecv f1; OSend [1%N]; ORecv f2; OPause; OSend [2%N]; OResume] in
+  let r := ip_sess_run (open toy_aead k) (mkSess (Live [] 0%N) 0%N) ops in
+  delivered (snd r) = [[69; 86]; [69; 78; 84]]%N /\
+  map (map sf_ctr) (wrote (snd r)) = [[0%N]; [1%N]] /\ forallb accepted_ev (snd r) = true.
+Proof. vm_compute. repeat split; reflexivity. Qed.
+
 Print Assumptions send_chunks_le_1024.
 Print Assumptions send_counters.
 Print Assumptions send_concat.
@@ -217,5 +256,8 @@ Print Assumptions feed_delivers_only_authentic.
 Print Assumptions session_delivers_only_authentic.
 Print Assumptions dead_delivers_nothing.
 Print Assumptions send_feed_mirror.
+Print Assumptions session_inbound_independent.
+Print Assumptions session_outbound_sequential.
+Print Assumptions session_dead_quiet.
 Print Assumptions nonce_layout.
 Print Assumptions aead_hyps_satisfiable.
